@@ -1,6 +1,6 @@
 (* C09 - pinned statements (densified one-permutation hashing). *)
 From Coq Require Import List ZArith Bool.
-From PMH Require Import Lib.ListArr Model.SuperMinHash Model.DensMinHash Gen.FlagsDens Proofs.DensMinHash.
+From PMH Require Import Lib.ListArr Model.SuperMinHash Model.DensMinHash Gen.FlagsDens Proofs.DensMinHash Proofs.DensIdem.
 Import ListNotations.
 Open Scope Z_scope.
 
@@ -50,6 +50,18 @@ Theorem C09_holds_streamed : forall m large its s k, items_ok m its ->
   nthb (d_init s) k = true -> exists r, In (r, k, nthz (d_v s) k) its /\ nthz (d_h s) k = r.
 Proof. exact dens_holds_streamed. Qed.
 
+(* end_sketch is idempotent: finishing a finished sketch returns it unchanged, whatever target streams are offered *)
+Theorem C09_end_sketch_idempotent : forall rep targets targets' rt rt' s s',
+  dwf s ->
+  (opt_densify rep s targets = DDone s' -> opt_densify rep s' targets' = DDone s') /\
+  ((forall tg, In tg rt -> forall k, (k < d_m s)%nat -> (tg k < d_m s)%nat) ->
+   rev_densify rep s rt = DDone s' -> rev_densify rep s' rt' = DDone s').
+Proof.
+  intros rep targets targets' rt rt' s s' Wf. split.
+  - exact (opt_densify_idempotent rep targets targets' s s' Wf).
+  - exact (rev_densify_idempotent rep rt rt' s s' Wf).
+Qed.
+
 Print Assumptions C09_source_flags.
 Print Assumptions C09_sketch_step.
 Print Assumptions C09_opt_densify.
@@ -58,3 +70,4 @@ Print Assumptions C09_opt_terminates.
 Print Assumptions C09_empty_reports.
 Print Assumptions C09_empty_never_fills.
 Print Assumptions C09_holds_streamed.
+Print Assumptions C09_end_sketch_idempotent.
